@@ -69,7 +69,7 @@ CHECKS.update({
    note=SYSNOTE,
    tech="TLA+ contract monitor + TLC trace validation of real executions under a deterministic scheduler"),
  "C20": dict(engine="tlc+h_sys", cat=MC, ref="4 C20",
-   text="Quill.tla checked exhaustively for small configurations (per-action checks of this property, I=>A on every exported behaviour, schedules replayed on the real code with state comparison); plus executions with thread start/log/exit/shrink schedules and N short-lived threads between idle periods (N around 256, 512..) validated by TLC against QuillContract: retained contexts = live threads that logged, shrink takes effect, delivery intact",
+   text="ExitRA.tla (exit/reclaim protocol under release/acquire with the memory orders extracted from the code, every transition replayed on the real ThreadContext and queue through a shim atomic); Quill.tla checked exhaustively for small configurations (per-action checks of this property, I=>A on every exported behaviour, schedules replayed on the real code with state comparison); plus executions with thread start/log/exit/shrink schedules and N short-lived threads between idle periods (N around 256, 512..) validated by TLC against QuillContract: retained contexts = live threads that logged, shrink takes effect, delivery intact",
    note=SYSNOTE,
    tech="TLA+ contract monitor + TLC trace validation of real executions under a deterministic scheduler"),
 })
@@ -165,6 +165,7 @@ man = {"version": 1, "setup_cmd": "cd /verif && ./setup.sh",
            {"name": "h_named", "path": "/verif/harness/h_named.cpp", "serves_properties": ["C19"], "kind_free_text": "real named-args scanner and end-to-end JSON sink runs"},
            {"name": "h_life", "path": "/verif/harness/h_life.cpp", "serves_properties": ["C07"], "kind_free_text": "forked children running the real backend thread, FileSink and signals"},
            {"name": "h_lock", "path": "/verif/harness/h_lock.cpp", "serves_properties": ["C17"], "kind_free_text": "real detail::Spinlock on a shim std::atomic implementing the release/acquire model (coroutine threads, one step per atomic access, happens-before race detector)"},
+           {"name": "h_exit", "path": "/verif/harness/h_exit.cpp", "serves_properties": ["C20"], "kind_free_text": "real ThreadContext (_valid flag) and bounded queue on a shim std::atomic implementing the release/acquire model with script-chosen load values"},
            {"name": "h_rot", "path": "/verif/harness/h_rot.cpp", "serves_properties": ["C14", "C15"], "kind_free_text": "real RotatingFileSink driven by scripts in a scratch directory, directory listing after every op"},
            {"name": "h_codec", "path": "/verif/harness/codec/rt_codec.cpp", "serves_properties": ["C04", "C11"], "kind_free_text": "generated C++ cases through the real macros/queue/manual backend with interposed allocator"},
            {"name": "h_spsc", "path": "/verif/harness/h_spsc.cpp", "serves_properties": [p for p in sorted(CHECKS) if "h_spsc" in CHECKS[p]["engine"]],
